@@ -139,6 +139,7 @@ type ovCfg struct {
 	IdRule, KClasses   string
 	KModes             []string
 	Orders             string
+	Uses               []string // how the probe uses each override: body | global | hidden (nil = body)
 	WgModes, Extras    []int
 	SameType, NeedRef  bool
 	NShards            int
@@ -180,6 +181,10 @@ func (g ovCfg) cfgText(shard int) string {
 	if n < 1 {
 		n = 1
 	}
+	uses := g.Uses
+	if uses == nil {
+		uses = []string{"body"}
+	}
 	return fmt.Sprintf(`SPECIFICATION Spec
 CONSTANTS
  Faults = %s
@@ -194,6 +199,7 @@ CONSTANTS
  KClasses = %q
  KModes = %s
  Orders = %q
+ Uses = %s
  WgModes = %s
  Extras = %s
  SameType = %s
@@ -203,7 +209,7 @@ CONSTANTS
 INVARIANTS %s
 CHECK_DEADLOCK FALSE
 `, tlaStrSet(g.Faults), g.MinN, g.MaxN, tlaStrSet(g.Types), tlaStrSet(g.Fams), tlaStrSet(g.DFams), g.LitN, tlaStrSet(g.ArithOps),
-		g.IdRule, g.KClasses, tlaStrSet(g.KModes), g.Orders, tlaIntSet(g.WgModes), tlaIntSet(g.Extras), tlaBool(g.SameType), tlaBool(g.NeedRef),
+		g.IdRule, g.KClasses, tlaStrSet(g.KModes), g.Orders, tlaStrSet(uses), tlaIntSet(g.WgModes), tlaIntSet(g.Extras), tlaBool(g.SameType), tlaBool(g.NeedRef),
 		n, shard, strings.Join(inv, " "))
 }
 
@@ -212,6 +218,7 @@ var (
 	ovAllFams  = []string{"none", "atom", "litf", "const", "un", "arith", "div", "rem", "bit", "shift", "logic", "cmp", "call", "cast", "deep"}
 	ovAllOps   = []string{"+", "-", "*"}
 	ovAllModes = []string{"key", "name_on_id", "both"}
+	ovAllUses  = []string{"body", "global", "hidden"}
 )
 
 // ovConfigs are the bounded spaces TLC enumerates exhaustively (init / derived / kmap / deps) and the space it samples (sim).
@@ -234,9 +241,14 @@ func ovConfigs() []ovCfg {
 		{Name: "depsk", MinN: 2, MaxN: 2, Types: ovAllTypes, Fams: []string{"atom", "arith"}, DFams: []string{"kprobe"}, LitN: 1, ArithOps: []string{"+", "*"},
 			IdRule: "alt", KClasses: "mix", KModes: []string{"key"}, Orders: "all", WgModes: []int{0}, Extras: []int{0}, SameType: true, NeedRef: true,
 			NShards: 8, quickShards: 1},
+		// how an override reaches the pipeline: named by the entry point, only by the initialiser of a var<private>, only by another
+		// override's default, only by @workgroup_size, not at all - x with / without default x with / without @id x supplied / omitted
+		{Name: "uses", MinN: 1, MaxN: 2, Types: ovAllTypes, Fams: []string{"none", "atom", "arith"}, LitN: 1, ArithOps: []string{"+"},
+			IdRule: "alt", KClasses: "ok", KModes: []string{"key"}, Orders: "rev", Uses: ovAllUses, WgModes: []int{0, 1}, Extras: []int{0}, SameType: true,
+			NShards: 32, quickShards: 1},
 		// beyond the bounds: up to 4 overrides of mixed types, every family, every class, every order
 		{Name: "sim", MinN: 2, MaxN: 4, Types: ovAllTypes, Fams: ovAllFams, DFams: ovAllFams[1:], LitN: 3, ArithOps: ovAllOps, IdRule: "free",
-			KClasses: "all", KModes: ovAllModes, Orders: "all", WgModes: []int{0, 1}, Extras: []int{0, 1}, NShards: 1, Simulate: 1},
+			KClasses: "all", KModes: ovAllModes, Orders: "all", Uses: ovAllUses, WgModes: []int{0, 1}, Extras: []int{0, 1}, NShards: 1, Simulate: 1},
 	}
 }
 
